@@ -415,3 +415,49 @@ def reaching_values(func_node, cfg: CFG, use: Node, expr):
 
     go(expr, use_conds, 0)
     return out
+
+
+def shared_default_state(repo, cls):
+    """[(FuncInfo, parameter, how)]: methods of the class whose mutable default argument (a list / dict / set display or
+    list() / dict() / set() call) is changed in place or handed out, and that some call in the package invokes without
+    that argument - the one default object then carries state from call to call (and between objects of the class)."""
+    from .model import calls_in, norm
+
+    out = []
+    for f in cls.methods.values():
+        args = f.node.args
+        names = [a.arg for a in args.args]
+        defaults = dict(zip(names[len(names) - len(args.defaults):], args.defaults))
+        defaults.update({a.arg: d for a, d in zip(args.kwonlyargs, args.kw_defaults) if d is not None})
+        for pname, d in defaults.items():
+            mutable = isinstance(d, (ast.List, ast.Dict, ast.Set)) or (isinstance(d, ast.Call) and isinstance(d.func, ast.Name) and d.func.id in ("list", "dict", "set", "bytearray") and not d.args)
+            if not mutable:
+                continue
+            how = None
+            rebound = any(isinstance(x, ast.Name) and x.id == pname and isinstance(x.ctx, ast.Store) for x in ast.walk(f.node))
+            for x in ast.walk(f.node):
+                if isinstance(x, ast.Call) and isinstance(x.func, ast.Attribute) and isinstance(x.func.value, ast.Name) and x.func.value.id == pname \
+                        and x.func.attr in ("append", "extend", "insert", "update", "add", "setdefault", "pop", "remove", "clear", "sort", "reverse", "popitem", "discard"):
+                    how = f"`{norm(x)[:60]}` changes it in place"
+                elif isinstance(x, (ast.Subscript,)) and isinstance(x.ctx, (ast.Store, ast.Del)) and isinstance(x.value, ast.Name) and x.value.id == pname:
+                    how = "an element of it is assigned"
+                elif isinstance(x, ast.AugAssign) and isinstance(x.target, ast.Name) and x.target.id == pname:
+                    how = "it is extended in place"
+                elif isinstance(x, ast.Return) and x.value is not None and any(isinstance(n, ast.Name) and n.id == pname for n in ast.walk(x.value)):
+                    how = how or "it is handed to the caller"
+                elif isinstance(x, ast.Assign) and any(isinstance(t, ast.Attribute) for t in x.targets) and isinstance(x.value, ast.Name) and x.value.id == pname:
+                    how = how or "it is stored in the object"
+            if how is None or (rebound and "in place" not in how and "assigned" not in how):
+                continue
+            pos = names.index(pname) - (0 if not names or names[0] not in ("self", "cls") else 1) if pname in names else None
+            omitted = False
+            for g in repo.functions:
+                for c in calls_in(g.node):
+                    if isinstance(c.func, ast.Attribute) and c.func.attr == f.name or (isinstance(c.func, ast.Name) and c.func.id == f.name):
+                        given = any(k.arg == pname for k in c.keywords) or (pos is not None and len(c.args) > pos) or any(isinstance(a, ast.Starred) for a in c.args) or any(k.arg is None for k in c.keywords)
+                        if not given:
+                            omitted = True
+            if omitted or not f.name.startswith("_"):
+                out.append((f, pname, how))
+    return out
+
